@@ -10,6 +10,7 @@
    conflicting revisions) does not include purge. *)
 From SG Require Import Base.Prelude C03.Access C03.AccessSpec C03.AccessProofs C03.AccessTheorems.
 From SG Require Import C03.Effective C03.EffectiveProofs C03.AccessX C03.AccessXLemmas C03.AccessXProofs C03.AccessXTheorems.
+From SG Require Import C03.Session C03.SessionProofs.
 Open Scope N_scope.
 
 (* after ANY history, the user's next load returns exactly: explicit channels + channels granted by winning live
@@ -402,6 +403,53 @@ Theorem C03_authorize_any_agrees : forall def ops u cs isdef,
   match cs with [] => In star (effective_set v) | _ => exists c, In c cs /\ (In c (effective_set v) \/ In star (effective_set v)) end.
 Proof. intros def ops u cs isdef _ v. apply authorize_any_agrees. Qed.
 Print Assumptions C03_authorize_any_agrees.
+
+(* ======================================================================================================
+   Long-lived sessions (Session.v): an open BLIP connection / a continuous changes feed keeps a user object and
+   reloads it only when its ChangeWaiter was notified on one of its keys.  [forallb notified_op ops]: the history
+   (any operations of Access.v by anybody, sessions opened, requests made, in any order) contains no DELETION of a
+   principal document -- DeleteUser, DeleteRole with purge -- because a deletion is not notified (refuted below), and
+   no db Purge (purge-stale-grant).
+   ====================================================================================================== *)
+
+(* waiter_keys_cover_access_sources: after every history, the keys every open session listens on contain the key of
+   its user's document and the key of the document of EVERY role named by its cached user object -- the principal
+   documents its effective access is computed from (the user still exists) *)
+Theorem C03_waiter_keys_cover_access_sources : forall ops id s,
+  forallb notified_op ops = true ->
+  find_sess id (ss_sess (srun sinit ops)) = Some s ->
+  In (PU (se_user s)) (se_keys s) /\
+  (forall r, In r (snd (se_view s)) -> In (PR r) (se_keys s)) /\
+  users (ss_st (srun sinit ops)) (se_user s) <> None.
+Proof.
+  intros ops id s Hn Hf. destruct (srun_SInv ops sinit Hn SInv_init) as [_ Hs].
+  destruct (Hs id s (find_sess_in _ _ _ Hf)) as [[A B] [C _]]. split; [exact A|]. split; [exact B | exact C].
+Qed.
+Print Assumptions C03_waiter_keys_cover_access_sources.
+
+(* ... so that every change of the effective set triggers a reload before the next request is authorized: the next
+   request of every open session is answered with exactly what a fresh request (a load in the current state) gets,
+   i.e. with the access specification of the current state *)
+Theorem C03_session_request_sees_current_access : forall ops id s,
+  forallb notified_op ops = true ->
+  let ss := srun sinit ops in
+  find_sess id (ss_sess ss) = Some s ->
+  exists chs ros ur,
+    snd (sstep ss (SRequest id)) = SView (Some (chs, ros)) /\
+    out_equiv (OUser (Some (chs, ros))) (snd (step (ss_st ss) (LoadUser (se_user s)))) /\
+    users (ss_st ss) (se_user s) = Some ur /\
+    (forall c, In c chs <-> user_spec (ss_st ss) (se_user s) ur c) /\
+    (forall r, In r ros <-> roles_spec (docs (ss_st ss)) (se_user s) (u_xro ur) r).
+Proof.
+  intros ops id s Hn ss Hf. pose proof (srun_SInv ops sinit Hn SInv_init) as I. fold ss in I.
+  destruct (session_request_fresh ss id s I Hf) as [chs [ros [E1 E2]]].
+  destruct I as [Ib _]. destruct (load_user_correct (ss_st ss) (se_user s) Ib) as [_ Hl]. cbn [step].
+  destruct (users (ss_st ss) (se_user s)) as [ur|] eqn:Eu.
+  - destruct Hl as [chs0 [ros0 [E0 [Hc Hr]]]]. exists chs, ros, ur. split; [exact E1|]. split; [exact E2|]. split; [reflexivity|].
+    rewrite E0 in E2. cbn [out_equiv] in E2. destruct E2 as [A B]. split; intros x; [rewrite (A x); apply Hc | rewrite (B x); apply Hr].
+  - rewrite Hl in E2. destruct E2.
+Qed.
+Print Assumptions C03_session_request_sees_current_access.
 
 (* non-vacuity: a history without purge in which a user created AFTER the granting document gets a channel
    directly and one through a granted role, and loses both when the document is tombstoned *)
